@@ -7,7 +7,7 @@ rsync -a --exclude .git /repo/ "$TMP/repo/" || exit 2
 DESC=$(/verif/bin/mutate -file "$TMP/repo/$F" -n "$I" -out "$TMP/repo/$F" 2>/dev/null) || { echo "$F $I error - | -"; exit 0; }
 DESC=$(echo "$DESC" | sed "s#$TMP/repo/##")
 ( cd "$TMP/repo" && go build ./... ) >/dev/null 2>&1 || { echo "$F $I nocompile - | $DESC"; exit 0; }
-OUT=$(/verif/bin/finlint -repo "$TMP/repo" -verif /verif -property "$P" -no-evidence 2>&1)
+OUT=$(${FINLINT:-/verif/bin/finlint} -repo "$TMP/repo" -verif /verif -property "$P" -no-evidence 2>&1)
 PROPS=$(printf '%s\n' "$OUT" | grep '^VIOLATION' | sed 's/.*property=\([A-Z0-9]*\).*/\1/' | sort -u | tr '\n' ',' | sed 's/,$//')
 if [ -n "$PROPS" ]; then echo "$F $I DETECTED $PROPS | $DESC"; else echo "$F $I undetected - | $DESC"; fi
 [ -n "$MQ_VERBOSE" ] && printf '%s\n' "$OUT" | grep -E "^(FAIL|VIOLATION|  FAIL)" | head -5
